@@ -139,14 +139,14 @@ fn add_directional_downcast<const ABOVE: bool>(
         casm_build_extend! {casm_builder,
             hint TestLessThanOrEqual { lhs: rc_bound_imm, rhs: diff } into { dst: is_valid };
         };
-        (validate_ge, validate_lt)
+        (validate_ge, validate_lt_fixed_ap_change)
     } else {
         // Valid values are where `value >= bound` therefore setting `is_valid` as
         // `(diff % PRIME) < 2**128`.
         casm_build_extend! {casm_builder,
             hint TestLessThan { lhs: diff, rhs: rc_bound_imm } into { dst: is_valid };
         };
-        (validate_lt, validate_ge)
+        (validate_lt_fixed_ap_change, validate_ge)
     };
     casm_build_extend!(casm_builder, jump Success if is_valid != 0;);
     validate_out_of_range(casm_builder, range_check, value, bound);
@@ -201,7 +201,7 @@ fn add_downcast_overflow_both(
 
     casm_build_extend!(casm_builder, Success:);
     validate_ge(casm_builder, range_check, value, &to_range.lower);
-    validate_lt(casm_builder, range_check, value, &to_range.upper);
+    validate_lt_fixed_ap_change(casm_builder, range_check, value, &to_range.upper);
 }
 
 /// Validates that `value` is smaller than `bound`.
@@ -210,6 +210,22 @@ pub fn validate_lt(casm_builder: &mut CasmBuilder, range_check: Var, value: Var,
         // value < bound  <=>  value + (2**128 - bound) < 2**128.
         const pos_shift = (BigInt::from(u128::MAX) + 1 - bound) as BigInt;
         maybe_tempvar shifted_value = value + pos_shift;
+        assert shifted_value = *(range_check++);
+    };
+}
+
+/// Same as [validate_lt], but always computes the shifted value into a new temporary, even when `bound` is
+/// exactly 2**128 and the shift is 0 - as the ap-change and cost tables of `downcast` assume.
+fn validate_lt_fixed_ap_change(
+    casm_builder: &mut CasmBuilder,
+    range_check: Var,
+    value: Var,
+    bound: &BigInt,
+) {
+    casm_build_extend! {casm_builder,
+        // value < bound  <=>  value + (2**128 - bound) < 2**128.
+        const pos_shift = (BigInt::from(u128::MAX) + 1 - bound) as BigInt;
+        tempvar shifted_value = value + pos_shift;
         assert shifted_value = *(range_check++);
     };
 }
